@@ -23,11 +23,24 @@ type Sources struct {
 	Allocs  map[*ssa.Alloc]bool
 	Values  map[ssa.Value]bool // every value visited
 	Opaque  []ssa.Value        // values the slice could not look through
+	// Followed (deep provenance only): repository callees whose returned values were followed instead of their arguments
+	Followed map[*types.Func]bool
+}
+
+// UnfollowedCalls: the callees whose result is a source in its own right (not looked through).
+func (s *Sources) UnfollowedCalls() []*types.Func {
+	var out []*types.Func
+	for f := range s.Calls {
+		if !s.Followed[f] {
+			out = append(out, f)
+		}
+	}
+	return out
 }
 
 func newSources() *Sources {
 	return &Sources{Params: map[*ssa.Parameter]bool{}, Fields: map[*types.Var]bool{}, Calls: map[*types.Func]bool{}, CallIns: map[*ssa.Call]bool{},
-		Consts: map[string]bool{}, Globals: map[*ssa.Global]bool{}, Allocs: map[*ssa.Alloc]bool{}, Values: map[ssa.Value]bool{}}
+		Consts: map[string]bool{}, Globals: map[*ssa.Global]bool{}, Allocs: map[*ssa.Alloc]bool{}, Values: map[ssa.Value]bool{}, Followed: map[*types.Func]bool{}}
 }
 
 // ProvOpts tunes the slice.
